@@ -93,6 +93,27 @@ fn main() {
             let body: Value = serde_json::from_str(&std::fs::read_to_string(&path).expect("read replay")).expect("replay json");
             let tier = if body["tier"].as_str() == Some("thorough") { Tier::Thorough } else { Tier::Quick };
             let seed = body["seed"].as_u64().unwrap_or(1);
+            let want_sig = body["signature"].as_str().unwrap_or("").to_string();
+            if want_sig.starts_with("superlinear/") {
+                // linear-time findings are replayed by re-measuring that family x operation
+                let fam = body["witness"]["family"].as_str().unwrap_or("").to_string();
+                let op = body["witness"]["op"].as_str().unwrap_or("").to_string();
+                let mut m = Merged::new();
+                c06_stages::linear_one(&fam, &op, &mut m);
+                for v in m.violations.values() {
+                    println!("replayed: sig={} detail={}", v.sig, v.detail);
+                }
+                if m.violations.contains_key(&want_sig) {
+                    println!("VIOLATION property={} replay={}", prop, path);
+                    std::process::exit(1);
+                }
+                println!("replay of {} did not reproduce {:?} on the current tree", path, want_sig);
+                std::process::exit(0);
+            }
+            if body["witness"]["_case"].as_u64().is_none() {
+                println!("replay file {} has no case index (stage-level finding: {}); re-run the check itself to reproduce", path, want_sig);
+                std::process::exit(2);
+            }
             let mut ctx = Ctx::new(&prop, tier, seed, 0, 1);
             ctx.replaying = true;
             ctx.replay_target = body["witness"]["_case"].as_u64();
